@@ -1,0 +1,76 @@
+//go:build verif
+
+package vgirpc
+
+import (
+	"time"
+
+	"github.com/apache/arrow-go/v18/arrow"
+	"github.com/apache/arrow-go/v18/arrow/array"
+)
+
+// Verification hooks for property C14 (a continuation token only resumes the
+// stream method that minted it). Add-only; compiled only with -tags verif.
+//
+// The constants are recovered by CALLING the real functions (never copied).
+
+type verifC14State struct{ N int64 }
+
+// verifC14CallTokenMethod seals a call token for method through the function
+// /init uses (packCallTokenFor) on a server whose call-state cache is disabled,
+// reopens it through resolveCall's miss path and returns the method the
+// resolved call names ("?" on any error).
+func verifC14CallTokenMethod(method string) string {
+	h := NewHttpServer(NewServer())
+	h.SetCallStateCacheEntries(0)
+	tok, err := h.packCallTokenFor(method, "00", nil, nil, "s")
+	if err != nil {
+		return "?"
+	}
+	call, err := h.resolveCall(&cursorTokenData{CreatedAt: time.Now().Unix(), CallID: "00"}, tok, nil)
+	if err != nil || call == nil {
+		return "?"
+	}
+	return call.Method
+}
+
+// verifC14CachedMethod does the same through the cache-hit path: the entry
+// packCallTokenFor stores must name the method too.
+func verifC14CachedMethod(method string) string {
+	h := NewHttpServer(NewServer())
+	if _, err := h.packCallTokenFor(method, "00", nil, nil, "s"); err != nil {
+		return "?"
+	}
+	call := h.callStates.get("00", nil)
+	if call == nil {
+		return "?"
+	}
+	return call.Method
+}
+
+func init() {
+	RegisterStateType(verifC14State{})
+	verifConstProviders = append(verifConstProviders, func() []VerifConst {
+		binds := int64(1)
+		for _, m := range []string{"a", "prod", "x/y", "\x00"} {
+			if verifC14CallTokenMethod(m) != m || verifC14CachedMethod(m) != m {
+				binds = 0
+			}
+		}
+		// exception type of the cast refusal for a tick batch sent to an exchange route
+		empty := arrow.NewSchema(nil, nil)
+		tick := array.NewRecordBatch(empty, nil, 0)
+		defer tick.Release()
+		castType := ""
+		if _, err := castRecordBatch(tick, arrow.NewSchema([]arrow.Field{{Name: "x", Type: arrow.PrimitiveTypes.Int64}}, nil)); err != nil {
+			castType = VerifExceptionType(err)
+		}
+		return []VerifConst{
+			// 1 when the call token sealed by /init's function and the cache entry it
+			// stores both name the minting method (probed on four method names)
+			verifNum("c14_call_names_method", binds),
+			verifBytes("c14_exc_not_implemented", VerifExceptionType(&MethodNotImplementedError{Method: "x"})),
+			verifBytes("c14_exc_cast", castType),
+		}
+	})
+}
